@@ -598,7 +598,25 @@ class CallMixin:
             self.unsupported(node, 'call of abstract method %s without an interface contract' % info.key)
         if info.is_async and not getattr(self, '_awaiting', False):
             return [(st, VFunc('coro', info=info, args=args, kwargs=kwargs))]
-        return self.inline(st, info, args, kwargs, node)
+        import re
+        HARMLESS = r'^(staticmethod|classmethod|property|\w+\.(setter|getter|deleter)|abc\.abstractmethod|abstractmethod|abc\.abstractproperty|' \
+                   r'abc\.abstractclassmethod|abc\.abstractstaticmethod|_requires_ua|wraps\(.*\)|functools\.wraps\(.*\)|final|typing\.final|override|typing\.override)$'
+        MEMO = r'^(functools\.)?(lru_cache|cache|cached_property)(\(.*\))?$'
+        memo = [d for d in info.decorators if re.match(MEMO, d)]
+        other = [d for d in info.decorators if not re.match(MEMO, d) and not re.match(HARMLESS, d)]
+        if other:
+            self.unsupported(node, 'call of %s, decorated with %s (the effect of that decorator is not modelled)' % (info.key, ', '.join(other)))
+        outs = self.inline(st, info, args, kwargs, node)
+        if memo:
+            # a memoising decorator: the object handed out may be one handed out (and changed by its holders) before -- an arbitrary
+            # object of the same class, about which nothing is known (in particular it is not new)
+            res = []
+            for s, v in outs:
+                if s.exc is None and isinstance(v, VRef):
+                    v = self.fresh_val(s, v.ty, 'memoised')
+                res.append((s, v))
+            return res
+        return outs
 
     def eval_defaults(self, st, info, bound, missing):
         res = [(st, dict(bound))]
